@@ -79,8 +79,10 @@ Definition init_genesis (e : env) (st : state) (g : genesis) : outcome state uni
 Definition reimport (e : env) (st : state) : outcome state unit := init_genesis e st (export_genesis e st).
 
 Definition rcode (r : rclass) : Z := match r with ROk => 0 | RErr => 1 | RPanic => 2 end.
+(* both verdicts on a probed genesis state: Validate, and the class of InitGenesis, which the
+   implementation runs on every probed state (also those Validate refuses) on an emptied store *)
 Definition probe (e : env) (st : state) (g : genesis) : list Z :=
-  if validate_genesis g then [1; rcode (class_of (init_genesis e st g))] else [0; -1].
+  [(if validate_genesis g then 1 else 0); rcode (class_of (init_genesis e st g))].
 
 (** * Correspondence-check support: the histories of Model/Incentive.v with re-import steps *)
 
